@@ -388,11 +388,12 @@ def main(argv):
     ap.add_argument("pid")
     ap.add_argument("--tier", default=os.environ.get("VERIF_TIER", "quick"), choices=["quick", "thorough"])
     ap.add_argument("--replay")
+    ap.add_argument("--part", help="development aid: run only props/<pid>_<part>.py:run_part")
     a = ap.parse_args(argv)
     seed = int(os.environ.get("VERIF_SEED", "1"))
     pid = a.pid.upper()
     try:
-        mod = importlib.import_module("props." + pid.lower())
+        mod = importlib.import_module("props." + pid.lower() + ("_" + a.part if a.part else ""))
         tier = a.tier
         rp = None
         if a.replay:
@@ -401,7 +402,12 @@ def main(argv):
             rp = json.load(open(a.replay if os.path.exists(a.replay) else os.path.join(VERIF, a.replay)))
             seed, tier = int(rp.get("seed", seed)), rp.get("tier", tier)
         ck = Check(pid, tier, seed, rp)
-        mod.run(ck)
+        if a.part:
+            mod.run_part(ck)
+        else:
+            mod.run(ck)
+            for part in getattr(mod, "PARTS", []):
+                importlib.import_module("props.%s_%s" % (pid.lower(), part)).run_part(ck)
         return ck.finish()
     except Infra as e:
         print("INFRASTRUCTURE FAILURE (%s): %s" % (pid, e))
